@@ -148,4 +148,138 @@ theorem ctlEventsOf_spec (cfg : Cfg) (hlex : LexCfg cfg) (settings : Settings) (
   rw [dif_pos h]
   exact Classical.choose_spec h
 
+/-! ## G2 — the selector VM along the event list: `Vm.runAux`, CSS matching -/
+
+/-- the tag event package selvm sees -/
+def selEvB : EvB → Option Sel.Event
+  | .ev e => selEvOf e
+  | .tok _ _ => none
+
+/-- the tag events of an event list: the document tree C04 talks about is the one they induce -/
+def tagEvents (evs : List EvB) : List Sel.Event := evs.filterMap selEvB
+
+theorem tokIf_other_vm (cfg : Cfg) (s : St) (hf : s.fault = none) (tok : Model.Token)
+    (hk : (CtlEv.other tok).WellKinded) (b : Bool) : (tokIf cfg b s tok).1.vm = s.vm := by
+  unfold tokIf
+  split
+  · obtain ⟨_, b, _⟩ := tokOther_frame cfg s tok hk hf
+    exact b
+  · rfl
+
+/-- **vm_runB.** Along a list of protocol steps that ends without error, the VM inside the real controller
+goes through `Vm.runAux` of package selvm on the extracted tag events: same final VM, and `runAux`'s hits are
+per start tag the match set of `Vm.handleStartTag` on the controller's VM — which is what the controller hands
+to `start_matching` (`Full_refines_scope_start`). -/
+theorem vm_runB (cfg : Cfg) (evs : List EvB) :
+    ∀ (s : St) (vm : SelVM.Vm) (ord : Nat) (acc : List (Nat × Nat)), J2 cfg s → s.vm = some vm →
+      (∀ e ∈ evs, e.Ok) → (stepsB cfg s evs).2 = none →
+      ∃ vm' hits, vm.runAux (tagEvents evs) ord acc = .ok (vm', hits) ∧ (stepsB cfg s evs).1.vm = some vm' := by
+  induction evs with
+  | nil => intro s vm ord acc _ hv _ _; exact ⟨vm, acc, rfl, hv⟩
+  | cons ev evs ih =>
+    intro s vm ord acc hJ hv hev hok
+    have hev0 := hev ev (by simp)
+    have hevs : ∀ e ∈ evs, e.Ok := fun e he => hev e (by simp [he])
+    simp only [stepsB] at hok ⊢
+    cases hr : (stepB cfg s ev).2 with
+    | some err => simp [hr] at hok
+    | none =>
+      simp only [hr] at hok ⊢
+      cases ev with
+      | tok b t =>
+        have hJ' : J2 cfg (stepB cfg s (.tok b t)).1 := ((J2_evInv cfg).other s t b hJ hev0).1 hr
+        have hvm1 : (stepB cfg s (.tok b t)).1.vm = some vm := by
+          show (tokIf cfg b s t).1.vm = some vm
+          rw [tokIf_other_vm cfg s hJ.1.fault t hev0 b]; exact hv
+        obtain ⟨vm', hits, hrun, hfin⟩ := ih _ vm ord acc hJ' hvm1 hevs hok
+        refine ⟨vm', hits, ?_, hfin⟩
+        rw [show tagEvents (EvB.tok b t :: evs) = tagEvents evs from List.filterMap_cons_none (by rfl)]
+        exact hrun
+      | ev e =>
+        cases e with
+        | other t => exact hev0.elim
+        | start name ns info tok =>
+          obtain ⟨⟨aux, ha⟩, hk⟩ := hev0
+          cases tok with
+          | startTag nm attrs ns' sc raw src base =>
+            have hr' : (ctlStep cfg s (.start name ns info (.startTag nm attrs ns' sc raw src base))).2 = none := hr
+            have hJ' : J2 cfg (stepB cfg s (.ev (.start name ns info (.startTag nm attrs ns' sc raw src base)))).1 :=
+              ((J2_evInv cfg).start s name ns info nm attrs ns' sc raw src base hJ).1 hr'
+            obtain ⟨h1, _⟩ := Full_start_no_panic cfg s hJ.1 (Full_idsBounded cfg) vm hv name ns info aux ha
+              nm attrs ns' sc raw src base
+            obtain ⟨_, vm1, ms, hh, hvm1⟩ := h1 hr'
+            obtain ⟨vm', hits, hrun, hfin⟩ := ih _ vm1 (ord + 1) (acc ++ ms.map fun mi => (mi.matchId, ord)) hJ' hvm1 hevs hok
+            refine ⟨vm', hits, ?_, hfin⟩
+            simp only [tagEvents, List.filterMap_cons, selEvB, selEvOf, ha, Option.map_some, SelVM.Vm.runAux, hh,
+              bind, Except.bind]
+            exact hrun
+          | endTag => simp [CtlEv.WellKinded] at hk
+          | comment => simp [CtlEv.WellKinded] at hk
+          | doctype => simp [CtlEv.WellKinded] at hk
+          | text => simp [CtlEv.WellKinded] at hk
+        | end_ name tok =>
+          cases tok with
+          | endTag nm raw src =>
+            have hr' : (ctlStep cfg s (.end_ name (.endTag nm raw src))).2 = none := hr
+            have hJ' : J2 cfg (stepB cfg s (.ev (.end_ name (.endTag nm raw src)))).1 :=
+              ((J2_evInv cfg).end_ s name nm raw src hJ).1 hr'
+            obtain ⟨h1, _⟩ := Full_end_no_panic cfg s hJ.1 name nm raw src
+            obtain ⟨_, hvmrun⟩ := h1 hr'
+            obtain ⟨vm1, hh, hvm1⟩ := hvmrun vm hv
+            obtain ⟨vm', hits, hrun, hfin⟩ := ih _ vm1 ord acc hJ' hvm1 hevs hok
+            refine ⟨vm', hits, ?_, hfin⟩
+            simp only [tagEvents, List.filterMap_cons, selEvB, selEvOf, SelVM.Vm.runAux, hh, bind, Except.bind]
+            exact hrun
+          | startTag => simp [EvB.Ok, EvOk, CtlEv.WellKinded] at hev0
+          | comment => simp [EvB.Ok, EvOk, CtlEv.WellKinded] at hev0
+          | doctype => simp [EvB.Ok, EvOk, CtlEv.WellKinded] at hev0
+          | text => simp [EvB.Ok, EvOk, CtlEv.WellKinded] at hev0
+
+/-- the selector lists the configuration registers -/
+def _root_.LolHtml.Model.Full.Cfg.selLists (cfg : Cfg) : List Sel.SelList := cfg.sels.map (·.1)
+
+/-- **C04_real_no_panic.** Lexer-mode configuration with at least one selector, ANY selectors and scripts, every
+settings record and chunking, all `write`s succeed: there is the list of protocol events the byte-level run fed
+the controller (G1), and on its tag events package selvm's `runSelectors` does not panic and ends in the VM
+state the real controller holds after the last `write`. -/
+theorem C04_real_no_panic (cfg : Cfg) (hlex : LexCfg cfg) (hne : cfg.sels.isEmpty = false)
+    (settings : Settings) (chunks : List Bytes)
+    (hok : ∀ x ∈ (writeAll (genWorld cfg) (Rewriter.new (genWorld cfg) (FullSt.init cfg) settings) chunks).2,
+      x = CallRes.ok) :
+    ∃ evs : List EvB, (∀ e ∈ evs, e.Ok) ∧
+      stepsB cfg (St.init cfg) evs = ((afterWrites cfg settings chunks).stream.disp.ctl.1, none) ∧
+      ∃ vm' hits, (SelVM.Vm.new (SelVM.Ast.ofSelectors cfg.selLists) cfg.esi).runAux (tagEvents evs) 0 [] = .ok (vm', hits) ∧
+        SelVM.runSelectors cfg.selLists cfg.esi (tagEvents evs) = .ok hits ∧
+        (afterWrites cfg settings chunks).stream.disp.ctl.1.vm = some vm' := by
+  obtain ⟨_, evs, hev, hsteps⟩ := Full_events_writes cfg hlex settings chunks hok
+  have hv : (St.init cfg).vm = some (SelVM.Vm.new (SelVM.Ast.ofSelectors cfg.selLists) cfg.esi) := by
+    unfold St.init Cfg.selLists
+    simp only [hne]
+    rfl
+  obtain ⟨vm', hits, hrun, hfin⟩ := vm_runB cfg evs (St.init cfg) _ 0 [] (J2_init cfg) hv hev (by rw [hsteps])
+  refine ⟨evs, hev, hsteps, vm', hits, hrun, ?_, by rw [hsteps] at hfin; exact hfin⟩
+  unfold SelVM.runSelectors
+  simp only [hrun, bind, Except.bind, pure, Except.pure]
+
+/-- **C04_real.** … and for selector sets whose `:not()` arguments are single plain simple selectors (`selsOk`;
+outside it the code itself deviates from CSS, finding F3): the hits `(selector index, start-tag ordinal)` — per
+start-tag event the match set the controller hands to `start_matching`, i.e. the element handlers it
+activates — are EXACTLY CSS Selectors matching (`Spec.Css.run`) on the tree induced by the start- / end-tag
+events of the run. No hypothesis on the scripts (mutating and failing closures allowed), the settings, the
+input or the chunking. -/
+theorem C04_real (cfg : Cfg) (hlex : LexCfg cfg) (hne : cfg.sels.isEmpty = false)
+    (hsel : SelVM.selsOk cfg.selLists = true) (settings : Settings) (chunks : List Bytes)
+    (hok : ∀ x ∈ (writeAll (genWorld cfg) (Rewriter.new (genWorld cfg) (FullSt.init cfg) settings) chunks).2,
+      x = CallRes.ok) :
+    ∃ evs : List EvB, (∀ e ∈ evs, e.Ok) ∧
+      stepsB cfg (St.init cfg) evs = ((afterWrites cfg settings chunks).stream.disp.ctl.1, none) ∧
+      ∃ vm', (SelVM.Vm.new (SelVM.Ast.ofSelectors cfg.selLists) cfg.esi).runAux (tagEvents evs) 0 [] =
+          .ok (vm', Spec.Css.run Spec.Css.cssLeaf cfg.selLists cfg.esi (tagEvents evs)) ∧
+        (afterWrites cfg settings chunks).stream.disp.ctl.1.vm = some vm' := by
+  obtain ⟨evs, hev, hsteps, vm', hits, hrun, hsel', hfin⟩ := C04_real_no_panic cfg hlex hne settings chunks hok
+  have := C04_VM.C04_vm_refines_css cfg.selLists hsel cfg.esi (tagEvents evs)
+  rw [hsel'] at this
+  simp only [Except.ok.injEq] at this
+  exact ⟨evs, hev, hsteps, vm', by rw [← this]; exact hrun, hfin⟩
+
 end LolHtml.Thm.Full
